@@ -25,7 +25,8 @@ def go : List String → String
         else b (Gen.configuredWindowVerbatim && !(Gen.validateChainRejectStart lo t) && !(Gen.validateChainRejectLimit up t))
       let r := if newTemporal [(lo, up)] then b (Gen.indexByDate [(lo, up)] sub == some 0) else "x"
       let c := match lo, up with
-        | some l, some u => b (Gen.temporallyCompatible (some (l, u)) sub)
+        | some l, some u => b (Gen.temporallyCompatible (some (l, u)) sub) ++ b (Gen.compatibleKeeps (some (l, u)) sub false false) ++
+            b (Gen.compatibleKeeps (some (l, u)) sub true true)
         | _, _ => "x"
       s!"{a} {r} {c}"
     | _, _, _, _ => "bad-op"
